@@ -1068,8 +1068,10 @@ class Session:
             ctx.probe('bounded estimation after an unbounded one (start may be infeasible)')
         if feasible_start and r.data.initLogLike is not None and float(r.data.logLike) < float(r.data.initLogLike) - 1e-9 * max(
                 1.0, abs(r.data.initLogLike)):
-            ctx.fail('I07.improve', f'estimate [{algo}]: final log likelihood {r.data.logLike!r} below the initial '
-                                    f'one {r.data.initLogLike!r}')
+            cause_ = str((r.data.optimizationMessages or {}).get('Cause of termination', ''))
+            capped_ = ' (stopped by the iteration cap: ' + cause_ + ')' if cause_.startswith('Maximum number of iterations') else ''
+            ctx.violate('I07.improve', f'estimate [{algo}]: final log likelihood {r.data.logLike!r} below the initial '
+                                       f'one {r.data.initLogLike!r}{capped_}')
         # (2) bounds
         self._bounds_ok(algo, est, 'estimate')
         # (3) derivatives reported = derivatives at that point, by a fresh object and by the same object; the same
